@@ -122,7 +122,7 @@ func genCase(seed uint64, no uint64) caseSpec {
 			}
 		}
 	}
-	weird := r.Chance(1, 12)      // this history uses non-canonical version spellings
+	weird := r.Chance(1, 12)     // this history uses non-canonical version spellings
 	purgeHeavy := r.Chance(1, 4) // many locally available versions, frequent purges, few blacklists
 	if purgeHeavy {
 		for i := range pools {
